@@ -383,3 +383,126 @@ pub fn decode_ext(raw: &[u8]) -> Option<ckb_types::core::BlockExt> {
         _ => None,
     }
 }
+
+// ---------------------------------------------------------------------------------------
+// (de)serialisation of dumps, for child processes (crash / restart engines)
+
+fn hexs(b: &[u8]) -> String {
+    vbase::hex(b)
+}
+
+fn unhex(s: &str) -> Vec<u8> {
+    (0..s.len() / 2)
+        .map(|i| u8::from_str_radix(&s[2 * i..2 * i + 2], 16).unwrap_or(0))
+        .collect()
+}
+
+fn unh(s: &str) -> H {
+    let v = unhex(s);
+    let mut x = [0u8; 32];
+    if v.len() == 32 {
+        x.copy_from_slice(&v);
+    }
+    x
+}
+
+pub fn to_json(d: &Dump) -> serde_json::Value {
+    use serde_json::json;
+    json!({
+        "tip": hexs(&d.tip),
+        "cells": d.cells.iter().map(|(k, c)| json!([hexs(&k.0), k.1, hexs(&c.output), hexs(&c.block_hash), c.block_number, c.block_epoch, c.tx_index])).collect::<Vec<_>>(),
+        "cell_data": d.cell_data.iter().map(|(k, v)| json!([hexs(&k.0), k.1, hexs(v)])).collect::<Vec<_>>(),
+        "cell_data_hash": d.cell_data_hash.iter().map(|(k, v)| json!([hexs(&k.0), k.1, hexs(v)])).collect::<Vec<_>>(),
+        "tx_info": d.tx_info.iter().map(|(k, t)| json!([hexs(k), hexs(&t.block_hash), t.block_number, t.block_epoch, t.index])).collect::<Vec<_>>(),
+        "index_num_to_hash": d.index_num_to_hash.iter().map(|(k, v)| json!([k, hexs(v)])).collect::<Vec<_>>(),
+        "index_hash_to_num": d.index_hash_to_num.iter().map(|(k, v)| json!([hexs(k), v])).collect::<Vec<_>>(),
+        "uncles": d.uncles.iter().map(|(k, v)| json!([hexs(k), hexs(v)])).collect::<Vec<_>>(),
+        "mmr": d.mmr.iter().map(|(k, v)| json!([k, hexs(v)])).collect::<Vec<_>>(),
+        "current_epoch": hexs(&d.current_epoch),
+        "epoch_number_index": d.epoch_number_index.iter().map(|(k, v)| json!([k, hexs(v)])).collect::<Vec<_>>(),
+        "epoch_ext": d.epoch_ext.iter().map(|(k, v)| json!([hexs(k), hexs(v)])).collect::<Vec<_>>(),
+        "block_epoch": d.block_epoch.iter().map(|(k, v)| json!([hexs(k), hexs(v)])).collect::<Vec<_>>(),
+        "block_ext": d.block_ext.iter().map(|(k, v)| json!([hexs(k), hexs(v)])).collect::<Vec<_>>(),
+        "number_hash": d.number_hash.iter().map(|(n, x)| json!([n, hexs(x)])).collect::<Vec<_>>(),
+    })
+}
+
+pub fn from_json(v: &serde_json::Value) -> Dump {
+    let arr = |k: &str| v[k].as_array().cloned().unwrap_or_default();
+    let s = |x: &serde_json::Value| x.as_str().unwrap_or("").to_string();
+    let mut d = Dump {
+        tip: unh(&s(&v["tip"])),
+        cells: BTreeMap::new(),
+        cell_data: BTreeMap::new(),
+        cell_data_hash: BTreeMap::new(),
+        tx_info: BTreeMap::new(),
+        index_num_to_hash: BTreeMap::new(),
+        index_hash_to_num: BTreeMap::new(),
+        uncles: BTreeMap::new(),
+        mmr: BTreeMap::new(),
+        current_epoch: unhex(&s(&v["current_epoch"])),
+        epoch_number_index: BTreeMap::new(),
+        epoch_ext: BTreeMap::new(),
+        block_epoch: BTreeMap::new(),
+        block_ext: BTreeMap::new(),
+        number_hash: vec![],
+    };
+    for e in arr("cells") {
+        d.cells.insert(
+            (unh(&s(&e[0])), e[1].as_u64().unwrap_or(0) as u32),
+            model::CellRec {
+                output: unhex(&s(&e[2])),
+                data: vec![],
+                block_hash: unh(&s(&e[3])),
+                block_number: e[4].as_u64().unwrap_or(0),
+                block_epoch: e[5].as_u64().unwrap_or(0),
+                tx_index: e[6].as_u64().unwrap_or(0) as u32,
+            },
+        );
+    }
+    for e in arr("cell_data") {
+        d.cell_data.insert((unh(&s(&e[0])), e[1].as_u64().unwrap_or(0) as u32), unhex(&s(&e[2])));
+    }
+    for e in arr("cell_data_hash") {
+        d.cell_data_hash.insert((unh(&s(&e[0])), e[1].as_u64().unwrap_or(0) as u32), unhex(&s(&e[2])));
+    }
+    for e in arr("tx_info") {
+        d.tx_info.insert(
+            unh(&s(&e[0])),
+            model::TxInfoRec {
+                block_hash: unh(&s(&e[1])),
+                block_number: e[2].as_u64().unwrap_or(0),
+                block_epoch: e[3].as_u64().unwrap_or(0),
+                index: e[4].as_u64().unwrap_or(0) as u32,
+            },
+        );
+    }
+    for e in arr("index_num_to_hash") {
+        d.index_num_to_hash.insert(e[0].as_u64().unwrap_or(0), unh(&s(&e[1])));
+    }
+    for e in arr("index_hash_to_num") {
+        d.index_hash_to_num.insert(unh(&s(&e[0])), e[1].as_u64().unwrap_or(0));
+    }
+    for e in arr("uncles") {
+        d.uncles.insert(unh(&s(&e[0])), unhex(&s(&e[1])));
+    }
+    for e in arr("mmr") {
+        d.mmr.insert(e[0].as_u64().unwrap_or(0), unhex(&s(&e[1])));
+    }
+    for e in arr("epoch_number_index") {
+        d.epoch_number_index.insert(e[0].as_u64().unwrap_or(0), unh(&s(&e[1])));
+    }
+    for e in arr("epoch_ext") {
+        d.epoch_ext.insert(unh(&s(&e[0])), unhex(&s(&e[1])));
+    }
+    for e in arr("block_epoch") {
+        d.block_epoch.insert(unh(&s(&e[0])), unh(&s(&e[1])));
+    }
+    for e in arr("block_ext") {
+        d.block_ext.insert(unh(&s(&e[0])), unhex(&s(&e[1])));
+    }
+    for e in arr("number_hash") {
+        d.number_hash.push((e[0].as_u64().unwrap_or(0), unh(&s(&e[1]))));
+    }
+    d
+}
